@@ -42,6 +42,9 @@ func c20child(args []string) {
 	case "rolling":
 		cfg["appender.f.type"], cfg["appender.f.fileDir"], cfg["appender.f.fileName"], cfg["appender.f.layout.type"] = "RollingFile", dir, "t.log", lt
 		cfg["appender.f.rotation"], cfg["appender.f.maxAge"] = "c20sec", "24"
+		if mode == "crossexit" {
+			cfg["appender.f.maxAge"] = []string{"24", "999999", "100000", "1"}[k%4]
+		}
 		cfg["logger.lg.type"], cfg["logger.lg.appenderRef.ref"] = "Logger", "f"
 	case "console":
 		cfg["appender.f.type"], cfg["appender.f.layout.type"] = "Console", lt
@@ -54,6 +57,9 @@ func c20child(args []string) {
 	case "rollinglogger":
 		cfg["logger.lg.type"], cfg["logger.lg.fileDir"], cfg["logger.lg.fileName"], cfg["logger.lg.rotation"], cfg["logger.lg.layout.type"] = "RollingFile", dir, "t.log", "c20sec", lt
 		cfg["logger.lg.separate"] = "true"
+		if mode == "crossexit" {
+			cfg["logger.lg.maxAge"] = []string{"24", "999999", "100000", "1"}[k%4]
+		}
 	case "consolelogger":
 		cfg["logger.lg.type"], cfg["logger.lg.layout.type"] = "Console", lt
 	}
@@ -87,7 +93,10 @@ func c20child(args []string) {
 	big := strings.Repeat("B", 300_000)
 	var wg sync.WaitGroup
 	deadline := time.Now().Add(1400 * time.Millisecond)
-	timed := mode == "rotkill" || mode == "contendkill" || mode == "fifokill"
+	timed := mode == "rotkill" || mode == "contendkill" || mode == "fifokill" || mode == "crossexit"
+	if mode == "crossexit" {
+		deadline = time.Now().Add(2300 * time.Millisecond) // two rotations (and their retention scans) happen, then the process just exits
+	}
 	for g := 0; g < G; g++ {
 		wg.Add(1)
 		go func(g int) {
@@ -336,6 +345,9 @@ func c20Worker(w *W) {
 				for r := 0; r < reps; r++ {
 					run(kind, layout, 4, 0, r, "rotkill")
 				}
+				for r := 0; r < 4; r++ {
+					run(kind, layout, 2, 0, r, "crossexit")
+				}
 			}
 		}
 	}
@@ -347,7 +359,7 @@ func init() {
 		ID: "C20", Level: "fault_enumeration", MinDistinct: 50, Worker: c20Worker,
 		Rule: "crash points: a child process logs through a synchronous logger to {File appender, RollingFile appender, Console appender (stdout redirected to a file), logger-level layout + File appender, File logger, RollingFile logger (separate), Console logger} x {Text, JSON} from 1 or 4 goroutines (goroutine 0 alternates 300 KB lines so that others arrive while a long write is in progress), acknowledging every returned call on a pipe; " +
 			"the process is destroyed right after acknowledgement #k for k on a 10-point grid over 1..40 (thorough: every k) by SIGKILL from inside, by os.Exit(0) without Destroy, and by SIGKILL from the parent after it has read k acknowledgements; in 'contended' runs the process kills itself the moment a call returns while goroutine 0 is still inside one of its long log calls (for the three plain-file kinds also with the target replaced by a FIFO that the parent drains slowly, so that the long write stays in progress for milliseconds); for rolling kinds additional runs cross a real 1 s boundary and SIGKILL the process from inside rotate() at one of three guarded yield points after lingering there 25 ms while the other goroutines keep logging and acknowledging. " +
-			"Oracle (parent, after the child is dead): every acknowledged id has a complete '\\n'-terminated line ending in the event's last field in the target. Non-trivial/distinct = distinct (kind, layout, goroutines, crash mode, k) crash points at which all acknowledged lines were present.",
+			"Rolling kinds are also run across two real boundaries with maxAge in {24, 999999, 100000, 1} hours and then simply exit (retention scans have run in between). Oracle (parent, after the child is dead): every acknowledged id has a complete '\\n'-terminated line ending in the event's last field in the target. Non-trivial/distinct = distinct (kind, layout, goroutines, crash mode, k) crash points at which all acknowledged lines were present.",
 		Assumptions: []string{"'in the target' means in the file as seen by another process (page cache), not on stable storage: the statement is about user-space buffering, not fsync", "acknowledgements are written after the log call returned, under a mutex together with the crash decision"},
 		Run: func(d *D) {
 			var specs []Spec
